@@ -154,9 +154,10 @@ def run_values(pid, tier, seed):
     r1 = []
     states_path, c, states = vlib.emit_states()
     r1.append(c)
-    for mod, cfg in VALUES_R1.get(pid, []):
+    for ent in VALUES_R1.get(pid, []):
+        mod, cfg = ent[0], ent[1]
         if os.path.exists(os.path.join(vlib.SPEC, cfg)):
-            r1.append(vlib.model_check(mod, cfg))
+            r1.append(vlib.model_check(mod, cfg, expect_violation=ent[2] if len(ent) > 2 else None))
     g = vlib.run_gen(vh, "values", tier, seed, states=states_path, only=VALUES_ONLY.get(pid), shards=nshards(tier))
     res = {"r1": r1, "gens": [g]}
     if "hang" in g:
@@ -190,7 +191,7 @@ def run_values_plus(pid, tier, seed):
 
 
 VALUES_R1 = {
-    "C05": [("MC_Ints.tla", "MC_Ints.cfg")],
+    "C05": [("MC_Ints.tla", "MC_Ints.cfg"), ("MC_IntsImpl.tla", "MC_IntsImpl.cfg"), ("MC_IntsImpl.tla", "MC_IntsImpl_neg.cfg", "WordRefinesSpec")],
     "C06": [("MC_Strings.tla", "MC_Strings.cfg")],
     "C12": [("MC_Decode.tla", "MC_Decode.cfg")],
     "C13": [("MC_Tokens.tla", "MC_Tokens.cfg")],
